@@ -1,1 +1,919 @@
-(* C19 - to be filled *)
+(* C19: lemmas.  Part 1: the recursion bound of emit_sff is never reached and every error of
+   generation is one of four (five for the partial writer) error values. *)
+From Slinky Require Import Model.Types Model.Parse Model.Runtime Model.Style Model.Script Model.Writer
+  Model.Exports.
+From Slinky Require Import Spec.C14 Proofs.C14 Spec.C19.
+From Coq Require Import Lia.
+
+(* ====================================================================== *)
+(* the error discipline                                                    *)
+(* ====================================================================== *)
+
+Lemma errs_ok {A} P (a : A) : errs P (Ok a).
+Proof. intros e H. discriminate. Qed.
+
+Lemma errs_err {A} (P : err -> Prop) e : P e -> errs P (@Err A e).
+Proof. intros H e' E. inversion E; subst. exact H. Qed.
+
+Lemma errs_bind {A B} P (r : res A) (f : A -> res B) :
+  errs P r -> (forall a, r = Ok a -> errs P (f a)) -> errs P (bind r f).
+Proof.
+  intros Hr Hf. destruct r as [a|e]; cbn [bind].
+  - apply Hf. reflexivity.
+  - intros e' E. apply Hr. inversion E; reflexivity.
+Qed.
+
+Lemma errs_mono {A} (P Q : err -> Prop) (r : res A) : (forall e, P e -> Q e) -> errs P r -> errs Q r.
+Proof. intros H Hr e E. apply H, Hr, E. Qed.
+
+Lemma fold_out_errs {A} P (f : A -> wstate -> res out) l :
+  (forall x ws, In x l -> errs P (f x ws)) -> forall ws, errs P (fold_out f l ws).
+Proof.
+  induction l as [|x r IH]; intros H ws; cbn [fold_out]; [apply errs_ok|].
+  apply errs_bind; [apply H; left; reflexivity|]. intros o1 _.
+  apply errs_bind; [apply IH; intros y ws' Hy; apply H; right; exact Hy|]. intros o2 _. apply errs_ok.
+Qed.
+
+Lemma gen_error_no_crash e : gen_error e -> forall w, e <> ECrash w.
+Proof. intros H w E. subst. inversion H. Qed.
+
+Lemma gen_partial_error_no_crash e : gen_partial_error e -> forall w, e <> ECrash w.
+Proof. intros H w E. subst. inversion H as [e H0 | name]. inversion H0. Qed.
+
+Lemma errs_no_crash {A} (P : err -> Prop) (r : res A) :
+  (forall e, P e -> forall w, e <> ECrash w) -> errs P r -> no_crash r.
+Proof. intros HP Hr w E. exact (HP _ (Hr _ E) w eq_refl). Qed.
+
+(* ====================================================================== *)
+(* escape_path fails only with ECustomOptionNotProvided                    *)
+(* ====================================================================== *)
+
+Definition opt_error (e : err) : Prop := exists path key, e = ECustomOptionNotProvided path key.
+
+Lemma opt_error_gen e : opt_error e -> gen_error e.
+Proof. intros [p [k E]]. subst. constructor. Qed.
+
+Lemma escape_scan_opt rt orig s : forall out within key,
+  errs opt_error (escape_scan rt orig s out within key).
+Proof.
+  induction s as [|ch r IH]; intros out within key; cbn [escape_scan]; [apply errs_ok|].
+  destruct within.
+  - destruct (Ascii.eqb ch "}"); [|apply IH].
+    destruct (opt_get rt key); [apply IH | apply errs_err; eexists; eexists; reflexivity].
+  - destruct (Ascii.eqb ch "{"); apply IH.
+Qed.
+
+Lemma escape_component_opt rt orig c : errs opt_error (escape_component rt orig c).
+Proof.
+  unfold escape_component. destruct (andb _ _).
+  - destruct (opt_get rt (inner_of c)); [apply errs_ok | apply errs_err; eexists; eexists; reflexivity].
+  - destruct (orb _ _); [apply errs_ok | apply escape_scan_opt].
+Qed.
+
+Lemma escape_components_opt rt orig l : forall acc, errs opt_error (escape_components rt orig l acc).
+Proof.
+  induction l as [|c r IH]; intro acc; cbn [escape_components]; [apply errs_ok|].
+  apply errs_bind; [apply escape_component_opt|]. intros c' _. apply IH.
+Qed.
+
+Lemma escape_path_opt rt p : errs opt_error (escape_path rt p).
+Proof. apply escape_components_opt. Qed.
+
+Lemma escape_path_errs rt p : errs gen_error (escape_path rt p).
+Proof. eapply errs_mono; [exact opt_error_gen | apply escape_path_opt]. Qed.
+
+(* ====================================================================== *)
+(* the chain of sub-group expansions                                       *)
+(* ====================================================================== *)
+
+Lemma mem_str_In x l : mem_str x l = true <-> In x l.
+Proof.
+  induction l as [|y r IH]; simpl; [split; [discriminate | intros []]|].
+  destruct (String.eqb x y) eqn:E.
+  - apply String.eqb_eq in E. subst. split; auto.
+  - rewrite IH. apply String.eqb_neq in E. split; [auto|]. intros [H|H]; [congruence | assumption].
+Qed.
+
+Lemma mem_str_not_In x l : mem_str x l = false -> ~ In x l.
+Proof. intros H Hin. apply mem_str_In in Hin. congruence. Qed.
+
+Lemma lookup_In {A} k (l : list (string * A)) v : lookup k l = Some v -> In (k, v) l.
+Proof.
+  induction l as [|[k' v'] r IH]; simpl; [discriminate|].
+  destruct (String.eqb k k') eqn:E.
+  - apply String.eqb_eq in E. intro H. inversion H; subst. left; reflexivity.
+  - intro H. right. apply IH. exact H.
+Qed.
+
+(* the sections a sub-group expansion recurses into all lie in the universe *)
+Lemma subgroup_member_universe seg k others other :
+  lookup k (sections_subgroups seg) = Some others -> In other others -> In other (chain_universe seg).
+Proof.
+  intros Hl Hin. unfold chain_universe. rewrite !in_app_iff. right; right.
+  apply in_flat_map. exists (k, others). split; [apply lookup_In; exact Hl | exact Hin].
+Qed.
+
+Section Chain.
+  Variable rt : runtime.
+  Variable sty : style.
+  Variable cfg : wcfg.
+  Variable seg : segment.
+  Variable sections : list string.
+  Variable P : err -> Prop.
+  Hypothesis P_gen : forall e, gen_error e -> P e.
+
+  (* the statement for one file at the top of a chain *)
+  Definition top_errs (f : file_info) : Prop :=
+    forall section base ws,
+      errs P (emit_sff rt sty cfg seg sections f (chain_fuel seg) [] section base ws).
+
+  Lemma emit_file_of_errs f base k ws :
+    Forall top_errs (fi_files f) -> errs P (emit_file_of rt sty cfg seg sections f base k ws).
+  Proof.
+    intro IHf. unfold emit_file_of. destruct (negb (should_emit rt (fi_conds f))); [apply errs_ok|].
+    assert (Hp : forall p, errs P (escape_path rt p))
+      by (intro p; eapply errs_mono; [exact P_gen | apply escape_path_errs]).
+    destruct (fi_kind f).
+    - apply errs_bind; [apply Hp|]. intros; apply errs_ok.
+    - apply errs_bind; [apply Hp|]. intros; apply errs_ok.
+    - apply errs_ok.
+    - apply errs_ok.
+    - apply errs_bind; [apply Hp|]. intros d _. apply fold_out_errs. intros c ws' Hc.
+      rewrite Forall_forall in IHf. apply (IHf c Hc).
+  Qed.
+
+  (* the invariant of the inner recursion: the stack holds distinct sections, all of them in the
+     universe except possibly the section [s0] the chain started from, and the fuel still covers
+     every section not yet on the stack *)
+  Lemma chain_errs f (s0 : string) :
+    Forall top_errs (fi_files f) ->
+    forall n stack section base ws,
+      NoDup stack -> incl stack (s0 :: chain_universe seg) -> In section (s0 :: chain_universe seg) ->
+      2 + List.length (chain_universe seg) <= n + List.length stack ->
+      errs P (emit_sff rt sty cfg seg sections f n stack section base ws).
+  Proof.
+    intro IHf. induction n as [|n IHn]; intros stack section base ws Hnd Hincl Hsec Hfuel.
+    - exfalso. pose proof (NoDup_incl_length Hnd Hincl) as Hlen. cbn [List.length] in Hlen. lia.
+    - rewrite emit_sff_S. destruct (mem_str section stack) eqn:Hmem.
+      { apply errs_err. apply P_gen. constructor. }
+      apply fold_out_errs. intros k ws0 _.
+      apply errs_bind; [apply emit_file_of_errs; exact IHf|]. intros o1 _.
+      apply errs_bind; [|intros; apply errs_ok].
+      destruct (reference_partial cfg); [apply errs_ok|].
+      destruct (lookup k (sections_subgroups seg)) as [others|] eqn:Hl; [|apply errs_ok].
+      apply fold_out_errs. intros other ws1 Hother.
+      apply IHn.
+      + constructor; [apply mem_str_not_In; exact Hmem | exact Hnd].
+      + intros x [Hx|Hx]; [subst; exact Hsec | apply Hincl; exact Hx].
+      + right. eapply subgroup_member_universe; eassumption.
+      + cbn [List.length]. lia.
+  Qed.
+
+  Lemma emit_sff_top_errs f : top_errs f.
+  Proof.
+    induction f as [f IHf] using file_info_nested_ind.
+    intros section base ws. apply (chain_errs f section IHf).
+    - constructor.
+    - intros x [].
+    - left; reflexivity.
+    - unfold chain_fuel. cbn [List.length]. lia.
+  Qed.
+
+  Lemma emit_section_errs base_path section ws :
+    errs P (emit_section rt sty cfg seg sections base_path section ws).
+  Proof.
+    assert (Hp : forall p, errs P (escape_path rt p))
+      by (intro p; eapply errs_mono; [exact P_gen | apply escape_path_errs]).
+    unfold emit_section. apply errs_bind; [apply Hp|]. intros b0 _.
+    apply errs_bind.
+    - destruct (reference_partial cfg); [apply errs_ok|].
+      apply errs_bind; [apply Hp|]. intros; apply errs_ok.
+    - intros b _. apply fold_out_errs. intros f ws' _. apply emit_sff_top_errs.
+  Qed.
+End Chain.
+
+(* the recursion bound is never reached *)
+Lemma fuel_sufficient rt sty cfg seg sections f section base ws :
+  no_crash (emit_sff rt sty cfg seg sections f (chain_fuel seg) [] section base ws).
+Proof.
+  apply (errs_no_crash gen_error); [exact gen_error_no_crash|].
+  apply emit_sff_top_errs. auto.
+Qed.
+
+(* ====================================================================== *)
+(* lifting through the writers                                             *)
+(* ====================================================================== *)
+
+Section Lift.
+  Variable rt : runtime.
+  Variable st : settings.
+  Variable cfg : wcfg.
+
+  Lemma part_groups_errs seg sections rest : forall ws,
+    errs gen_error (part_groups rt st cfg seg sections rest ws).
+  Proof.
+    induction rest as [|section rest' IH]; intro ws; cbn [part_groups]; [apply errs_ok|].
+    apply errs_bind; [apply emit_section_errs; auto|]. intros o1 _.
+    apply errs_bind; [apply IH|]. intros; apply errs_ok.
+  Qed.
+
+  Lemma write_segment_errs seg sections noload ws :
+    errs gen_error (write_segment rt st cfg seg sections noload ws).
+  Proof. unfold write_segment. apply errs_bind; [apply part_groups_errs|]. intros; apply errs_ok. Qed.
+
+  Lemma single_groups_errs seg sections noload rest : forall ws,
+    errs gen_error (single_groups rt st cfg seg sections noload rest ws).
+  Proof.
+    induction rest as [|section rest' IH]; intro ws; cbn [single_groups]; [apply errs_ok|].
+    apply errs_bind; [apply emit_section_errs; auto|]. intros o1 _.
+    apply errs_bind; [apply IH|]. intros; apply errs_ok.
+  Qed.
+
+  Lemma write_single_segment_errs seg sections noload ws :
+    errs gen_error (write_single_segment rt st cfg seg sections noload ws).
+  Proof.
+    unfold write_single_segment. apply errs_bind; [apply single_groups_errs|]. intros; apply errs_ok.
+  Qed.
+
+  Variable classes : list vram_class.
+
+  Lemma add_segment_errs seg ws : errs gen_error (add_segment rt st cfg classes seg ws).
+  Proof.
+    unfold add_segment. destruct (negb (should_emit rt (sg_conds seg))); [apply errs_ok|].
+    apply errs_bind.
+    - destruct (sg_vram_class seg) as [cn|]; [|apply errs_ok].
+      destruct (class_get classes cn); [|apply errs_err; constructor].
+      destruct (mem_str cn (ws_emitted ws)); apply errs_ok.
+    - intros cls _. apply errs_bind; [apply write_segment_errs|]. intros o1 _.
+      apply errs_bind; [apply write_segment_errs|]. intros; apply errs_ok.
+  Qed.
+
+  Lemma add_single_segment_errs seg ws : errs gen_error (add_single_segment rt st cfg classes seg ws).
+  Proof.
+    unfold add_single_segment. apply errs_bind; [apply write_single_segment_errs|]. intros o1 _.
+    apply errs_bind; [apply write_single_segment_errs|]. intros; apply errs_ok.
+  Qed.
+
+  Lemma add_all_segments_errs segs ws : errs gen_error (add_all_segments rt st cfg classes segs ws).
+  Proof.
+    unfold add_all_segments. destruct (single_segment_mode st).
+    - destruct segs as [|seg [|s2 r]]; try (apply errs_err; constructor). apply add_single_segment_errs.
+    - apply errs_bind; [|intros; apply errs_ok]. apply fold_out_errs. intros seg ws' _.
+      apply add_segment_errs.
+  Qed.
+End Lift.
+
+Lemma gen_normal_errs d rt : errs gen_error (gen_normal d rt).
+Proof. unfold gen_normal. apply errs_bind; [apply add_all_segments_errs|]. intros; apply errs_ok. Qed.
+
+Lemma partial_segment_errs d rt folder seg acc : errs gen_error (partial_segment d rt folder seg acc).
+Proof.
+  unfold partial_segment. cbv zeta. destruct (negb (should_emit rt (sg_conds seg))); [apply errs_ok|].
+  apply errs_bind; [apply add_single_segment_errs|]. intros sub _.
+  apply errs_bind; [apply add_segment_errs|]. intros; apply errs_ok.
+Qed.
+
+Lemma partial_segments_errs d rt folder segs : forall acc,
+  errs gen_error (partial_segments d rt folder segs acc).
+Proof.
+  induction segs as [|s r IH]; intro acc; cbn [partial_segments]; [apply errs_ok|].
+  apply errs_bind; [apply partial_segment_errs|]. intros o1 _.
+  apply errs_bind; [apply IH|]. intros; apply errs_ok.
+Qed.
+
+Lemma gen_partial_errs d rt : errs gen_partial_error (gen_partial d rt).
+Proof.
+  unfold gen_partial. cbv zeta. destruct (partial_build_segments_folder (doc_settings d)) as [folder|].
+  - apply errs_bind; [|intros; apply errs_ok].
+    eapply errs_mono; [|apply partial_segments_errs]. intros e He. apply gpe_gen. exact He.
+  - apply errs_err. apply gpe_field.
+Qed.
+
+Lemma gen_normal_no_crash d rt : no_crash (gen_normal d rt).
+Proof. apply (errs_no_crash gen_error); [exact gen_error_no_crash | apply gen_normal_errs]. Qed.
+
+Lemma gen_partial_no_crash d rt : no_crash (gen_partial d rt).
+Proof.
+  apply (errs_no_crash gen_partial_error); [exact gen_partial_error_no_crash | apply gen_partial_errs].
+Qed.
+
+(* ====================================================================== *)
+(* parsing never crashes                                                   *)
+(* ====================================================================== *)
+
+Definition not_crash (e : err) : Prop := forall w, e <> ECrash w.
+
+Lemma map_res_errs {A B} P (f : A -> res B) l :
+  (forall x, In x l -> errs P (f x)) -> errs P (map_res f l).
+Proof.
+  induction l as [|x r IH]; intro H; cbn [map_res]; [apply errs_ok|].
+  apply errs_bind; [apply H; left; reflexivity|]. intros y _.
+  apply errs_bind; [apply IH; intros z Hz; apply H; right; exact Hz|]. intros; apply errs_ok.
+Qed.
+
+Ltac nc_err := apply errs_err; intros ? ?; discriminate.
+
+Lemma nc_get_non_null {A} (x : an A) name default : errs not_crash (get_non_null x name default).
+Proof. destruct x; first [apply errs_ok | nc_err]. Qed.
+
+Lemma nc_get_non_null_not_empty_list {A} (x : an (list A)) name :
+  errs not_crash (get_non_null_not_empty_list x name).
+Proof. destruct x as [| |[|a l]]; first [apply errs_ok | nc_err]. Qed.
+
+Lemma nc_get_non_null_no_default {A} (x : an A) name : errs not_crash (get_non_null_no_default x name).
+Proof. destruct x; first [apply errs_ok | nc_err]. Qed.
+
+Lemma nc_get_optional_nullable {A} (x : an A) default : errs not_crash (get_optional_nullable x default).
+Proof. destruct x; apply errs_ok. Qed.
+
+Lemma nc_get_required {A} (x : an A) name : errs not_crash (get_required x name).
+Proof. destruct x; first [apply errs_ok | nc_err]. Qed.
+
+Lemma nc_forbid {A} (x : an A) f1 f2 : errs not_crash (forbid x f1 f2).
+Proof. unfold forbid. destruct (has_value x); first [apply errs_ok | nc_err]. Qed.
+
+Lemma nc_combo a b f1 f2 : errs not_crash (combo a b f1 f2).
+Proof. unfold combo. destruct (andb a b); first [apply errs_ok | nc_err]. Qed.
+
+(* one step of a monadic definition whose leaves are the accessors above *)
+Ltac nc_step :=
+  first
+    [ apply errs_ok
+    | nc_err
+    | apply nc_get_non_null
+    | apply nc_get_non_null_not_empty_list
+    | apply nc_get_non_null_no_default
+    | apply nc_get_optional_nullable
+    | apply nc_get_required
+    | apply nc_forbid
+    | apply nc_combo
+    | apply errs_bind; [|intros ? _]
+    | match goal with
+      | |- errs _ (if ?b then _ else _) => destruct b
+      | |- errs _ (match ?x with _ => _ end) => destruct x
+      end ].
+
+Ltac nc := repeat nc_step.
+
+Lemma nc_parse_conds c : errs not_crash (parse_conds c).
+Proof. unfold parse_conds. nc. Qed.
+
+Lemma nc_parse_file fs : errs not_crash (parse_file fs).
+Proof.
+  induction fs as [u p k sf pa s lon so files d c kp IH] using file_serial_nested_ind.
+  cbn [parse_file fs_unknown fs_path fs_kind fs_subfile fs_pad_amount fs_section
+       fs_linker_offset_name fs_section_order fs_files fs_dir fs_conds fs_keep].
+  apply errs_bind; [nc|]. intros ko _.
+  apply errs_bind; [nc|]. intros [path kind] _.
+  apply errs_bind; [nc|]. intros subfile _.
+  apply errs_bind; [nc|]. intros pad_amount _.
+  apply errs_bind; [nc|]. intros section _.
+  apply errs_bind; [nc|]. intros lon' _.
+  apply errs_bind; [nc|]. intros so' _.
+  apply errs_bind.
+  { destruct (is_group kind); [|nc]. destruct files as [| |l]; try nc_err.
+    rewrite parse_go_eq. apply map_res_errs. intros x Hx. cbn [an_all] in IH.
+    rewrite Forall_forall in IH. apply IH. exact Hx. }
+  intros files' _.
+  apply errs_bind; [nc|]. intros dir _.
+  apply errs_bind; [apply nc_parse_conds|]. intros c' _. apply errs_ok.
+Qed.
+
+Lemma nc_parse_gp g : errs not_crash (parse_gp g).
+Proof. unfold parse_gp. nc. Qed.
+
+Lemma nc_parse_settings s : errs not_crash (parse_settings s).
+Proof. unfold parse_settings. nc. Qed.
+
+Lemma nc_parse_segment st s : errs not_crash (parse_segment st s).
+Proof.
+  unfold parse_segment. cbv zeta.
+  set (sfiles := match ss_files s with Some l => l | None => [] end). clearbody sfiles.
+  repeat (apply errs_bind;
+          [first [apply map_res_errs; intros; apply nc_parse_file | solve [nc]] | intros ? _]).
+  apply errs_ok.
+Qed.
+
+Lemma nc_parse_class c : errs not_crash (parse_class c).
+Proof. unfold parse_class. cbv zeta. nc. Qed.
+
+Lemma nc_parse_assign a : errs not_crash (parse_assign a).
+Proof. unfold parse_assign. cbv zeta. nc. Qed.
+
+Lemma nc_parse_required r : errs not_crash (parse_required r).
+Proof. unfold parse_required. cbv zeta. nc. Qed.
+
+Lemma nc_parse_assert a : errs not_crash (parse_assert a).
+Proof. unfold parse_assert. cbv zeta. nc. Qed.
+
+Lemma nc_unserialize_document d : errs not_crash (unserialize_document d).
+Proof.
+  unfold unserialize_document. cbv zeta.
+  apply errs_bind; [nc|]. intros sto _.
+  apply errs_bind; [destruct sto; [apply nc_parse_settings | apply errs_ok]|]. intros st _.
+  apply errs_bind; [nc|]. intros _ _.
+  apply errs_bind; [nc|]. intros sclasses _.
+  apply errs_bind; [apply map_res_errs; intros; apply nc_parse_class|]. intros classes _.
+  apply errs_bind; [apply map_res_errs; intros; apply nc_parse_segment|]. intros segments _.
+  apply errs_bind; [nc|]. intros entry _.
+  apply errs_bind; [nc|]. intros sassigns _.
+  apply errs_bind; [apply map_res_errs; intros; apply nc_parse_assign|]. intros assigns _.
+  apply errs_bind; [nc|]. intros sreq _.
+  apply errs_bind; [apply map_res_errs; intros; apply nc_parse_required|]. intros req _.
+  apply errs_bind; [nc|]. intros sasserts _.
+  apply errs_bind; [apply map_res_errs; intros; apply nc_parse_assert|]. intros asserts _.
+  apply errs_ok.
+Qed.
+
+Lemma parse_no_crash sd : no_crash (parse sd).
+Proof.
+  apply (errs_no_crash not_crash); [auto|]. unfold parse.
+  destruct (serde_ok sd); [apply nc_unserialize_document | nc_err].
+Qed.
+
+(* the command-line tool always returns a result *)
+Lemma cli_run_total sd a : exists ok out writes, cli_run sd a = CliResult ok out writes.
+Proof. destruct (cli_run sd a) as [ok out writes]. exists ok, out, writes. reflexivity. Qed.
+
+(* ====================================================================== *)
+(* the repaired defect: a cyclic sections_subgroups is an error value      *)
+(* ====================================================================== *)
+
+Lemma fold_out_ok_each {A} (f : A -> wstate -> res out) l : forall ws o,
+  fold_out f l ws = Ok o -> forall x, In x l -> exists ws' o', f x ws' = Ok o'.
+Proof.
+  induction l as [|y r IH]; intros ws o H x Hx; [destruct Hx|].
+  cbn [fold_out] in H. apply bind_ok in H. destruct H as [o1 [E1 H]].
+  apply bind_ok in H. destruct H as [o2 [E2 H]]. destruct Hx as [Hx|Hx].
+  - subst. exists ws, o1. exact E1.
+  - eapply IH; eassumption.
+Qed.
+
+Lemma sections_here_plain f section sections :
+  fi_section_order f = [] -> sections_here f section sections = [section].
+Proof. intro H. unfold sections_here. rewrite H. reflexivity. Qed.
+
+Lemma sections_here_self_plain f section sections :
+  fi_section_order f = [] -> In section (sections_here f section sections).
+Proof. intro H. rewrite sections_here_plain by exact H. left; reflexivity. Qed.
+
+Lemma mem_str_head s stack : mem_str s (s :: stack) = true.
+Proof. cbn [mem_str]. rewrite String.eqb_refl. reflexivity. Qed.
+
+(* a section that is a member of its own sub-group, expanded for an entry that emits at it: the
+   generation of that entry never succeeds ... *)
+Lemma self_cycle_never_ok rt sty cfg seg sections f n stack s others base ws :
+  reference_partial cfg = false ->
+  In s (sections_here f s sections) ->
+  lookup s (sections_subgroups seg) = Some others -> In s others ->
+  forall o, emit_sff rt sty cfg seg sections f n stack s base ws <> Ok o.
+Proof.
+  intros Href Hhere Hl Hin o H. destruct n as [|n]; [rewrite emit_sff_O in H; discriminate|].
+  rewrite emit_sff_S in H. destruct (mem_str s stack); [discriminate|].
+  destruct (fold_out_ok_each _ _ _ _ H s Hhere) as [ws1 [o1 Hk]]. cbv beta in Hk.
+  apply bind_ok in Hk. destruct Hk as [oa [Ea Hk]]. apply bind_ok in Hk. destruct Hk as [ob [Eb _]].
+  rewrite Href, Hl in Eb.
+  destruct (fold_out_ok_each _ _ _ _ Eb s Hin) as [ws2 [o2 Hs]].
+  destruct n as [|n]; [rewrite emit_sff_O in Hs; discriminate|].
+  rewrite emit_sff_S, mem_str_head in Hs. discriminate.
+Qed.
+
+(* ... and when the section is the first member and the entry itself is emitted without error, the
+   error value is the cycle error naming the segment and the section *)
+Lemma self_cycle_detected rt sty cfg seg sections f n stack s rest base ws :
+  reference_partial cfg = false ->
+  fi_section_order f = [] ->
+  lookup s (sections_subgroups seg) = Some (s :: rest) ->
+  mem_str s stack = false ->
+  (exists o, emit_file_of rt sty cfg seg sections f base s ws = Ok o) ->
+  emit_sff rt sty cfg seg sections f (S (S n)) stack s base ws = Err (ESubgroupCycle (sg_name seg) s).
+Proof.
+  intros Href Hso Hl Hmem [o Ho]. rewrite emit_sff_S, Hmem, (sections_here_plain _ _ _ Hso).
+  cbn [fold_out]. rewrite Ho. cbn [bind]. rewrite Href, Hl. cbn [fold_out].
+  rewrite emit_sff_S, mem_str_head. reflexivity.
+Qed.
+
+(* an object file that is not excluded and whose path needs no option is emitted without error *)
+Lemma emit_file_of_object_ok rt sty cfg seg sections f base k ws p :
+  should_emit rt (fi_conds f) = true -> fi_kind f = KObject -> escape_path rt (fi_path f) = Ok p ->
+  exists o, emit_file_of rt sty cfg seg sections f base k ws = Ok o.
+Proof.
+  intros He Hk Hp. unfold emit_file_of. rewrite He, Hk, Hp. cbn [negb bind]. eexists. reflexivity.
+Qed.
+
+Lemma cycle_detected_object rt sty cfg seg sections f s base ws p :
+  reference_partial cfg = false ->
+  sections_subgroups seg = [(s, [s])] ->
+  should_emit rt (fi_conds f) = true -> fi_kind f = KObject -> fi_section_order f = [] ->
+  escape_path rt (fi_path f) = Ok p ->
+  emit_sff rt sty cfg seg sections f (chain_fuel seg) [] s base ws =
+  Err (ESubgroupCycle (sg_name seg) s).
+Proof.
+  intros Href Hsub He Hk Hso Hp. unfold chain_fuel.
+  apply (self_cycle_detected rt sty cfg seg sections f _ [] s [] base ws Href Hso).
+  - rewrite Hsub. cbn [lookup]. rewrite String.eqb_refl. reflexivity.
+  - reflexivity.
+  - eapply emit_file_of_object_ok; eassumption.
+Qed.
+
+(* ---------- no cycle error when the expansion graph is acyclic ---------- *)
+
+Definition not_cycle (e : err) : Prop := forall s c, e <> ESubgroupCycle s c.
+
+Lemma opt_error_not_cycle e : opt_error e -> not_cycle e.
+Proof. intros [p [k E]] s c. subst. discriminate. Qed.
+
+Lemma chain_decreasing_deep_eq seg sections rank f :
+  chain_decreasing_deep seg sections rank f <->
+  chain_decreasing seg sections rank f /\ Forall (chain_decreasing_deep seg sections rank) (fi_files f).
+Proof.
+  destruct f as [p k sf pa s lon so files d c kp]. cbn [chain_decreasing_deep fi_files].
+  assert (E : forall l,
+    (fix all (l : list file_info) : Prop :=
+       match l with
+       | [] => True
+       | c :: r => chain_decreasing_deep seg sections rank c /\ all r
+       end) l <-> Forall (chain_decreasing_deep seg sections rank) l).
+  { induction l as [|x r IH]; [split; constructor|]. rewrite IH. split.
+    - intros [H1 H2]. constructor; assumption.
+    - intro H. inversion H; subst. split; assumption. }
+  rewrite E. reflexivity.
+Qed.
+
+Section Acyclic.
+  Variable rt : runtime.
+  Variable sty : style.
+  Variable cfg : wcfg.
+  Variable seg : segment.
+  Variable sections : list string.
+  Variable rank : string -> nat.
+
+  Definition acyclic_ok (f : file_info) : Prop :=
+    chain_decreasing_deep seg sections rank f ->
+    forall section base ws,
+      errs not_cycle (emit_sff rt sty cfg seg sections f (chain_fuel seg) [] section base ws).
+
+  Lemma acyclic_chain f :
+    Forall acyclic_ok (fi_files f) -> chain_decreasing_deep seg sections rank f ->
+    forall n stack section base ws,
+      (forall x, In x stack -> rank section < rank x) ->
+      errs not_cycle (emit_sff rt sty cfg seg sections f n stack section base ws).
+  Proof.
+    intros IHf Hdeep. apply chain_decreasing_deep_eq in Hdeep. destruct Hdeep as [Hdec Hkids].
+    assert (Hp : forall p, errs not_cycle (escape_path rt p))
+      by (intro p; eapply errs_mono; [exact opt_error_not_cycle | apply escape_path_opt]).
+    induction n as [|n IHn]; intros stack section base ws Hrank.
+    - rewrite emit_sff_O. apply errs_err. intros s c. discriminate.
+    - rewrite emit_sff_S. destruct (mem_str section stack) eqn:Hmem.
+      { exfalso. apply mem_str_In in Hmem. apply Hrank in Hmem. lia. }
+      apply fold_out_errs. intros k ws0 Hk.
+      apply errs_bind.
+      { unfold emit_file_of. destruct (negb (should_emit rt (fi_conds f))); [apply errs_ok|].
+        destruct (fi_kind f).
+        - apply errs_bind; [apply Hp|]. intros; apply errs_ok.
+        - apply errs_bind; [apply Hp|]. intros; apply errs_ok.
+        - apply errs_ok.
+        - apply errs_ok.
+        - apply errs_bind; [apply Hp|]. intros d _. apply fold_out_errs. intros c ws' Hc.
+          rewrite Forall_forall in IHf, Hkids. apply (IHf c Hc). apply Hkids. exact Hc. }
+      intros o1 _. apply errs_bind; [|intros; apply errs_ok].
+      destruct (reference_partial cfg); [apply errs_ok|].
+      destruct (lookup k (sections_subgroups seg)) as [others|] eqn:Hl; [|apply errs_ok].
+      apply fold_out_errs. intros other ws1 Hother. apply IHn.
+      pose proof (Hdec section k others other Hk Hl Hother) as Hlt.
+      intros x [Hx|Hx]; [subst; exact Hlt | apply Hrank in Hx; lia].
+  Qed.
+
+  Lemma acyclic_no_cycle_error f : acyclic_ok f.
+  Proof.
+    induction f as [f IHf] using file_info_nested_ind.
+    intros Hdeep section base ws. apply (acyclic_chain f IHf Hdeep). intros x [].
+  Qed.
+End Acyclic.
+
+Lemma chain_invariant rt sty cfg seg sections f s0 :
+  Forall (top_errs rt sty cfg seg sections gen_error) (fi_files f) ->
+  forall n stack section base ws,
+    NoDup stack -> incl stack (s0 :: chain_universe seg) -> In section (s0 :: chain_universe seg) ->
+    2 + List.length (chain_universe seg) <= n + List.length stack ->
+    errs gen_error (emit_sff rt sty cfg seg sections f n stack section base ws).
+Proof. apply chain_errs. auto. Qed.
+
+Lemma acyclic_no_cycle rt sty cfg seg sections rank f :
+  chain_decreasing_deep seg sections rank f ->
+  forall section base ws s c,
+    emit_sff rt sty cfg seg sections f (chain_fuel seg) [] section base ws <> Err (ESubgroupCycle s c).
+Proof.
+  intros H section base ws s c E.
+  exact (acyclic_no_cycle_error rt sty cfg seg sections rank f H section base ws _ E s c eq_refl).
+Qed.
+
+(* ====================================================================== *)
+(* capitalize is total                                                     *)
+(* ====================================================================== *)
+
+Lemma capitalize_empty : capitalize "" = ""%string.
+Proof. reflexivity. Qed.
+
+Lemma capitalize_cons c r : capitalize (String c r) = String (upper_ascii c) r.
+Proof. reflexivity. Qed.
+
+Lemma capitalize_length s : String.length (capitalize s) = String.length s.
+Proof. destruct s; reflexivity. Qed.
+
+Lemma convert_section_name_total st sec : exists s, convert_section_name st sec = s.
+Proof. eexists. reflexivity. Qed.
+
+(* ====================================================================== *)
+(* the rendered text is well bracketed                                     *)
+(* ====================================================================== *)
+
+Local Open Scope string_scope.
+
+Lemma str_length_app (a b : string) : String.length (a ++ b) = String.length a + String.length b.
+Proof. induction a as [|c a IH]; simpl; [reflexivity | rewrite IH; reflexivity]. Qed.
+
+(* a character other than a space or a brace *)
+Definition other_char (c : ascii) : bool :=
+  negb (orb (Ascii.eqb c " ") (orb (Ascii.eqb c "{") (Ascii.eqb c "}"))).
+
+Fixpoint has_other (s : string) : bool :=
+  match s with
+  | EmptyString => false
+  | String c r => orb (other_char c) (has_other r)
+  end.
+
+Lemma has_other_app a b : has_other (a ++ b) = orb (has_other a) (has_other b).
+Proof. induction a as [|c a IH]; simpl; [reflexivity | rewrite IH, orb_assoc; reflexivity]. Qed.
+
+Lemma has_other_strip t : has_other (strip_indent t) = has_other t.
+Proof.
+  induction t as [|c t IH]; [reflexivity|]. cbn [strip_indent].
+  destruct c as [b0 b1 b2 b3 b4 b5 b6 b7].
+  destruct b0, b1, b2, b3, b4, b5, b6, b7; try reflexivity. exact IH.
+Qed.
+
+Lemma not_brace_other t : has_other t = true -> ~ is_brace t.
+Proof.
+  intros H [E|E]; rewrite <- has_other_strip, E in H; discriminate.
+Qed.
+
+(* every one-line statement carries a character of fixed text that is neither space nor brace *)
+Ltac nb :=
+  apply not_brace_other;
+  repeat match goal with
+         | |- context [if ?b then _ else _] => destruct b
+         | |- context [match ?o with Some _ => _ | None => _ end] => destruct o
+         end;
+  rewrite ?has_other_app; cbn [has_other other_char]; cbn; rewrite ?orb_true_r; reflexivity.
+
+Definition stmt_body (s : stmt) : option (list stmt) :=
+  match s with
+  | SOutSec _ _ _ _ _ body => Some body
+  | SSections body => Some body
+  | _ => None
+  end.
+
+Section StmtInd.
+  Variable P : stmt -> Prop.
+  Hypothesis Hleaf : forall s, stmt_body s = None -> P s.
+  Hypothesis Hout : forall name addr at_ noload sub body,
+      Forall P body -> P (SOutSec name addr at_ noload sub body).
+  Hypothesis Hsec : forall body, Forall P body -> P (SSections body).
+
+  Fixpoint stmt_nested_ind (s : stmt) : P s :=
+    let go := fix go (l : list stmt) : Forall P l :=
+                match l with
+                | [] => Forall_nil P
+                | x :: r => Forall_cons x (stmt_nested_ind x) (go r)
+                end in
+    match s as s0 return P s0 with
+    | SOutSec name addr at_ noload sub body => Hout name addr at_ noload sub body (go body)
+    | SSections body => Hsec body (go body)
+    | SComment t => Hleaf (SComment t) eq_refl
+    | SBlank => Hleaf SBlank eq_refl
+    | SAssign p h r sym e => Hleaf (SAssign p h r sym e) eq_refl
+    | SAlign sym n => Hleaf (SAlign sym n) eq_refl
+    | SMaxSelf a b => Hleaf (SMaxSelf a b) eq_refl
+    | SRomAdd sec => Hleaf (SRomAdd sec) eq_refl
+    | SDotAdd n => Hleaf (SDotAdd n) eq_refl
+    | SFill n => Hleaf (SFill n) eq_refl
+    | SInput k p m sect w => Hleaf (SInput k p m sect w) eq_refl
+    | SSingleEntry sect => Hleaf (SSingleEntry sect) eq_refl
+    | SDiscard pats wild => Hleaf (SDiscard pats wild) eq_refl
+    | SEntry e => Hleaf (SEntry e) eq_refl
+    | SExtern n => Hleaf (SExtern n) eq_refl
+    | SAssert c m => Hleaf (SAssert c m) eq_refl
+    end.
+End StmtInd.
+
+Lemma render_go_eq ind body :
+  (fix go (l : list stmt) : list string :=
+     match l with [] => [] | x :: r => (render_stmt (S ind) x ++ go r)%list end) body =
+  flat_map (render_stmt (S ind)) body.
+Proof. induction body as [|x r IH]; [reflexivity|]. cbn [flat_map]. rewrite <- IH. reflexivity. Qed.
+
+Lemma render_outsec ind name addr at_ noload sub body :
+  render_stmt ind (SOutSec name addr at_ noload sub body) =
+  ((indent_str ind ++ render_header name addr at_ noload sub)%string :: (indent_str ind ++ "{")%string ::
+   flat_map (render_stmt (S ind)) body ++ [(indent_str ind ++ "}")%string])%list.
+Proof. cbn [render_stmt]. rewrite render_go_eq. reflexivity. Qed.
+
+Lemma render_sections ind body :
+  render_stmt ind (SSections body) =
+  ((indent_str ind ++ "SECTIONS")%string :: (indent_str ind ++ "{")%string ::
+   flat_map (render_stmt (S ind)) body ++ [(indent_str ind ++ "}")%string])%list.
+Proof. cbn [render_stmt]. rewrite render_go_eq. reflexivity. Qed.
+
+Lemma blocks_flat_map ind (l : list stmt) :
+  Forall (fun s => forall ind r, blocks ind r -> blocks ind (render_stmt ind s ++ r)%list) l ->
+  forall r, blocks ind r -> blocks ind (flat_map (render_stmt ind) l ++ r)%list.
+Proof.
+  induction 1 as [|x l' Hx Hl IH]; intros r Hr; [exact Hr|].
+  cbn [flat_map]. rewrite <- app_assoc. apply Hx. apply IH. exact Hr.
+Qed.
+
+Lemma blocks_discard_body ind pats : forall r,
+  blocks (S ind) r ->
+  blocks (S ind) (map (fun p => (indent_str (S ind) ++ "*(" ++ p ++ ");")%string) pats ++ r)%list.
+Proof.
+  induction pats as [|p ps IH]; intros r Hr; [exact Hr|].
+  cbn [map app]. apply (bl_line (S ind) ("*(" ++ p ++ ");")); [nb | apply IH; exact Hr].
+Qed.
+
+Lemma header_not_brace name addr at_ noload sub : ~ is_brace (render_header name addr at_ noload sub).
+Proof. unfold render_header. nb. Qed.
+
+Lemma render_stmt_blocks s : forall ind r, blocks ind r -> blocks ind (render_stmt ind s ++ r)%list.
+Proof.
+  induction s as [s Hs | name addr at_ noload sub body IH | body IH] using stmt_nested_ind;
+    intros ind r Hr.
+  - destruct s; try discriminate Hs; cbn [render_stmt app].
+    + apply bl_line; [nb | exact Hr].
+    + apply bl_blank; exact Hr.
+    + apply bl_line; [unfold render_assign; nb | exact Hr].
+    + apply bl_line; [nb | exact Hr].
+    + apply bl_line; [nb | exact Hr].
+    + apply bl_line; [nb | exact Hr].
+    + apply bl_line; [nb | exact Hr].
+    + apply bl_line; [nb | exact Hr].
+    + apply bl_line; [unfold render_input; nb | exact Hr].
+    + apply bl_line; [nb | exact Hr].
+    + rewrite <- !app_assoc. cbn [app].
+      rewrite app_assoc.
+      apply (bl_block ind "/DISCARD/ :"); [nb | | exact Hr].
+      apply blocks_discard_body. destruct wild; cbn [app]; [|constructor].
+      apply (bl_line (S ind) "*(*);"); [nb | constructor].
+    + apply bl_line; [nb | exact Hr].
+    + apply bl_line; [nb | exact Hr].
+    + apply bl_line; [nb | exact Hr].
+  - rewrite render_outsec. cbn [app]. rewrite <- app_assoc. cbn [app].
+    apply bl_block; [apply header_not_brace | | exact Hr].
+    rewrite <- (app_nil_r (flat_map _ _)). apply blocks_flat_map; [exact IH | constructor].
+  - rewrite render_sections. cbn [app]. rewrite <- app_assoc. cbn [app].
+    apply (bl_block ind "SECTIONS"); [nb | | exact Hr].
+    rewrite <- (app_nil_r (flat_map _ _)). apply blocks_flat_map; [exact IH | constructor].
+Qed.
+
+Lemma render_blocks l : blocks 0 (render l).
+Proof.
+  unfold render. rewrite <- (app_nil_r (flat_map _ _)). apply blocks_flat_map; [|constructor].
+  apply Forall_forall. intros s _. apply render_stmt_blocks.
+Qed.
+
+(* ---------- a reader that only counts braces ---------- *)
+
+Lemma strip_indent_indent ind t : strip_indent (indent_str ind ++ t) = strip_indent t.
+Proof. induction ind as [|n IH]; [reflexivity|]. cbn [indent_str]. exact IH. Qed.
+
+Lemma depth_after_app l1 : forall d l2,
+  depth_after d (l1 ++ l2)%list =
+  match depth_after d l1 with Some d' => depth_after d' l2 | None => None end.
+Proof.
+  induction l1 as [|x r IH]; intros d l2; [reflexivity|]. cbn [app depth_after].
+  destruct (String.eqb (strip_indent x) "{"); [apply IH|].
+  destruct (String.eqb (strip_indent x) "}"); [|apply IH].
+  destruct d as [|d']; [reflexivity | apply IH].
+Qed.
+
+Lemma depth_after_plain d t r :
+  ~ is_brace t -> depth_after d (t :: r) = depth_after d r.
+Proof.
+  intro H. cbn [depth_after].
+  destruct (String.eqb (strip_indent t) "{") eqn:E1.
+  { exfalso. apply H. left. apply String.eqb_eq. exact E1. }
+  destruct (String.eqb (strip_indent t) "}") eqn:E2.
+  { exfalso. apply H. right. apply String.eqb_eq. exact E2. }
+  reflexivity.
+Qed.
+
+Lemma is_brace_indent ind t : is_brace (indent_str ind ++ t) <-> is_brace t.
+Proof. unfold is_brace. rewrite strip_indent_indent. reflexivity. Qed.
+
+Lemma blocks_depth ind l : blocks ind l -> forall d, depth_after d l = Some d.
+Proof.
+  induction 1 as [ind | ind r Hr IH | ind t r Ht Hr IH | ind header body r Hh Hb IHb Hr IHr]; intro d.
+  - reflexivity.
+  - rewrite depth_after_plain; [apply IH|]. intros [E|E]; discriminate.
+  - rewrite depth_after_plain; [apply IH|]. rewrite is_brace_indent. exact Ht.
+  - rewrite depth_after_plain by (rewrite is_brace_indent; exact Hh).
+    cbn [depth_after]. rewrite strip_indent_indent. cbn [strip_indent String.eqb Ascii.eqb Bool.eqb].
+    rewrite depth_after_app, IHb. cbn [depth_after]. rewrite strip_indent_indent.
+    cbn [strip_indent String.eqb Ascii.eqb Bool.eqb]. apply IHr.
+Qed.
+
+Lemma render_depth l : depth_after 0 (render l) = Some 0.
+Proof. apply (blocks_depth 0). apply render_blocks. Qed.
+
+(* ====================================================================== *)
+(* example inputs: the three repaired crashes                              *)
+(* ====================================================================== *)
+
+Definition ex19_seg (name : string) (files : list file_serial) (alloc : an (list string))
+           (subgroups : an (list (string * list string))) : segment_serial :=
+  SegmentSerial [] (Value name) (Some files) Absent Absent Absent Absent Absent Absent ex_cs
+                alloc Absent Absent Absent Absent Absent Absent
+                Absent Absent Absent Absent subgroups SKAbsent.
+
+Definition ex19_settings (sty : an style) (single : an bool) : settings_serial :=
+  SettingsSerial [] Absent sty Absent Absent Absent Absent Absent Absent Absent Absent Absent
+                 Absent single (Value "ld/partial") (Value "build/segments") Absent Absent Absent
+                 Absent Absent Absent Absent Absent Absent Absent Absent Absent.
+
+Definition ex19_doc (st : settings_serial) (segs : list segment_serial) : document_serial :=
+  DocumentSerial [] (Value st) Absent (Some segs) Absent Absent Absent Absent.
+
+Definition ex19_rt : runtime := Runtime [] true.
+
+(* what the public API returns: [None] for success, the error value otherwise *)
+Definition ex19_normal (sd : document_serial) : option err :=
+  match parse sd with
+  | Ok d => match gen_normal d ex19_rt with Ok _ => None | Err e => Some e end
+  | Err e => Some e
+  end.
+
+Definition ex19_partial (sd : document_serial) : option err :=
+  match parse sd with
+  | Ok d => match gen_partial d ex19_rt with Ok _ => None | Err e => Some e end
+  | Err e => Some e
+  end.
+
+(* sections_subgroups with a section that contains itself, directly and through another one *)
+Definition ex19_cyclic_direct : document_serial :=
+  ex19_doc (ex19_settings Absent Absent)
+           [ex19_seg "boot" [ex_obj "a.o" SKAbsent] Absent (Value [(".text", [".text"])])].
+
+Definition ex19_cyclic_indirect : document_serial :=
+  ex19_doc (ex19_settings Absent Absent)
+           [ex19_seg "boot" [ex_group [ex_obj "a.o" SKAbsent] SKAbsent] Absent
+                     (Value [(".text", [".text.hot"]); (".text.hot", [".text.cold"]);
+                             (".text.cold", [".text"])])].
+
+(* three levels of sub-groups without a cycle *)
+Definition ex19_acyclic_subgroups : list (string * list string) :=
+  [(".text", [".text.hot"; ".text.cold"]); (".text.hot", [".text.hot.inner"])].
+
+Definition ex19_acyclic : document_serial :=
+  ex19_doc (ex19_settings Absent Absent)
+           [ex19_seg "boot" [ex_obj "a.o" SKAbsent] Absent (Value ex19_acyclic_subgroups)].
+
+Definition ex19_rank (s : string) : nat :=
+  if String.eqb s ".text" then 2 else if String.eqb s ".text.hot" then 1 else 0.
+
+(* single_segment_mode with two segments *)
+Definition ex19_two_single : document_serial :=
+  ex19_doc (ex19_settings Absent (Value true))
+           [ex19_seg "a" [ex_obj "a.o" SKAbsent] Absent Absent;
+            ex19_seg "b" [ex_obj "b.o" SKAbsent] Absent Absent].
+
+(* the makerom style with a section whose first character after the dot is not ASCII (two bytes
+   of UTF-8), and one that is only a dot *)
+Definition ex19_nonascii_section : string :=
+  String "." (String (ascii_of_nat 195) (String (ascii_of_nat 169) "tat")).
+
+Definition ex19_makerom : document_serial :=
+  ex19_doc (ex19_settings (Value Makerom) Absent)
+           [ex19_seg "boot" [ex_obj "a.o" SKAbsent] (Value [ex19_nonascii_section; "."; ""]) Absent].
+
+Definition ex19_lines (sd : document_serial) : list string :=
+  match parse sd with
+  | Ok d => match gen_normal d ex19_rt with Ok w => render (wo_script w) | Err _ => [] end
+  | Err _ => []
+  end.
+
+Lemma ex19_acyclic_decreasing f :
+  fi_section_order f = [] ->
+  chain_decreasing (Segment "boot" [] None None None None "" None no_conds [".text"] [] None None None
+                            None None [] [] true None ex19_acyclic_subgroups KAbsent)
+                   [".text"] ex19_rank f.
+Proof.
+  intros Hso section k others other Hk Hl Hother.
+  rewrite (sections_here_plain _ _ _ Hso) in Hk. destruct Hk as [Hk|[]]. subst k.
+  cbn [sections_subgroups ex19_acyclic_subgroups lookup] in Hl.
+  destruct (String.eqb section ".text") eqn:E1.
+  - apply String.eqb_eq in E1. subst section. inversion Hl; subst others.
+    destruct Hother as [H|[H|[]]]; subst other; vm_compute; lia.
+  - destruct (String.eqb section ".text.hot") eqn:E2; [|discriminate].
+    apply String.eqb_eq in E2. subst section. inversion Hl; subst others.
+    destruct Hother as [H|[]]; subst other; vm_compute; lia.
+Qed.
